@@ -33,7 +33,7 @@ CLAIMS = {
         "armed-local reachability on unwind edges, guard construction/drop dominance, must-pass-through in Drain::drop, "
         "closed table of destructor sites",
         text="Static decision, on drop-elaborated MIR with explicit unwind edges, of every ordering obligation that "
-        "makes a panicking element destructor harmless: size/start are shrunk before drop_range runs (PS1), explicit "
+        "makes a panicking element destructor harmless: size/start are shrunk before drop_range runs (PS1), and nothing of the header is written after it (PS1b), drop_range destroys on every non-empty path (DESTROY1), explicit "
         "destruction never targets a still-armed local (PS2), all panic guards exist before the first is dropped "
         "(DROPPER1), Drain::drop destroys before restoring size and nothing can unwind afterwards (DRN1 d,e), and the "
         "functions with direct destructor sites are the reviewed closed table. Holds for every N, layout, argument "
@@ -51,7 +51,10 @@ CLAIMS = {
         "documented table (PAN1); internal callers discharge asserting callees and build only non-panicking range "
         "shapes (PAN2); documented panics precede any buffer write (PAN3); no Rem/Div by or element index into a zero "
         "capacity is reachable from any public entry (MOD1); no Add/Mul on caller-supplied indices outside reviewed "
-        "sites (ARITH1). Not decided: implicit bounds/range checks (counted; infeasible under INV), loop termination.",
+        "sites (ARITH1); every normal return of an asserting function passes its documented assertions (PAN4). Thorough "
+        "tier, debug build: every debug assertion is proved unreachable from the public entries except a reviewed table "
+        "of value-level ones (DBGASSERT1). Not decided: implicit bounds/range checks (counted; infeasible under INV), "
+        "loop termination.",
         note="Assumes INV (checked by INV1 under C04) and core's RangeBounds impls; implicit slice/array bounds checks "
         "and termination are not judged.",
         ref="DESIGN.md §5 C11",
@@ -80,7 +83,7 @@ CLAIMS = {
         "functions can destroy, bit-copy, move out, disarm or contains unsafe code (all others are safe code over T); in "
         "those, every move-out is paired with the size decrease and every size increase with the slot write, slots are "
         "written only when already counted, every public entry returns balanced; the owners (buffer Drop, IntoIter, "
-        "Drain::drop, From<[T;M]>) destroy what they hold. Not decided: that the slot ranges passed to drop_range/"
+        "Drain::drop, From<[T;M]>) destroy what they hold. Also: drop_range returns without destroying only for an empty range (DESTROY1), the drain's un-yielded views are bounded by iter, never by range (DRNVIEW1), no iterator type overrides a provided method that moves or skips elements (ITERSET1). Not decided: that the slot ranges passed to drop_range/"
         "drop_in_place/ptr::copy are the right ones (values).",
         note="Tables in rules/tables.py are reviewed by hand against the source; trusted: Rust's guarantees for safe "
         "code, rustc MIR. Range arithmetic not decided.",
@@ -95,7 +98,7 @@ CLAIMS = {
         "helpers' own debug_assert!s), header written only by reviewed functions with shapes preserving size<=N, start<N "
         "(INV1), capacity zero never reaches a modulus/index (MOD1), the free-slot view is write-only (FREE1), "
         "constructors ignore storage bytes (CTOR1), slice-level reinterpretation only in reviewed guarded functions "
-        "(REINT1). Not decided: bounds arithmetic inside the slice views; two-run non-interference.",
+        "(REINT1). Also: a physical slot position add_mod(start,i,N) used to index/offset/swap storage needs i<size (ACC2b); index-kind inference: physical positions and logical indices/lengths are never compared nor substituted for each other, and the backing array is sliced only by physical positions (KIND1); DRNVIEW1. Not decided: bounds arithmetic inside the slice views; two-run non-interference.",
         note="One INV1 store (extend_from_slice size + other.len()) is listed as an assumption, not decided. Drain::read "
         "is a named exception (unsafe fn with a value-level contract).",
         ref="DESIGN.md §5 C04",
@@ -109,7 +112,7 @@ CLAIMS = {
         "dropped) before restoring size, restores on every normal path (modulo N==0), nothing can unwind afterwards, the "
         "back-fill loop lies on every path to the restore (DRN1 d,e, DROPPER1, BACKFILL1); next/next_back read exactly the "
         "index produced by std's Range iterator and len/size_hint are that iterator's (DRAINIT1); no modulus/index by "
-        "capacity zero reachable from drain/Drain (MOD1); every RangeBounds form translated as documented (RANGE1). Not "
+        "capacity zero reachable from drain/Drain (MOD1); every RangeBounds form translated as documented (RANGE1). Also DRNVIEW1 (views bounded by iter), VIEWCMP1 (contiguity test), KIND1 on the Drain functions, ITERSET1 for Drain. Not "
         "decided: back-fill arithmetic, order preservation, termination (values).",
         note="Trusted: std's Range<usize> iterator and RangeBounds impls. Which slots the un-yielded slices cover "
         "(Drain::as_mut_slices bounds) is value-level and not decided.",
@@ -212,7 +215,7 @@ CLAIMS = {
         text="Static decision of the O(1) clause as an effect property: from no operation documented as constant-time "
         "(38 entries, element destructors excluded) is a loop, recursion or bulk-relocating call reachable, for every N, "
         "layout and argument; bulk relocation exists only in remove, Drain::drop, make_contiguous and From<[T;M]>, and "
-        "make_contiguous does not rotate unconditionally. Not decided: the linear bounds for remove/drain and the "
+        "make_contiguous does not rotate unconditionally. Also VIEWCMP1 (make_contiguous's contiguity test agrees with as_slices) and KIND1 on remove/swap/Drain::drop (no branch decided by comparing a physical position with a length). Not decided: the linear bounds for remove/drain and the "
         "correctness of make_contiguous's contiguity test.",
         note="KNOWN LIMIT: defect F6 (make_contiguous rotates although contents are contiguous when they end exactly at "
         "the array end; N=4,start=2,size=2) is a genuine violation of the statement's last sentence that this family "
@@ -228,7 +231,7 @@ CLAIMS = {
         "as_mut_slices; to_vec/Debug/Hash/PartialOrd/Ord/&IntoIterator -> iter), that get/front/back (and pop/remove) "
         "answer None only over an edge establishing N==0, size==0 or index>=size and Some only under index<size / size>0 "
         "(NONE1), and that each mutable accessor performs the same steps on the same operands as its shared twin (TWIN "
-        "x11). Not decided: agreement of the two primitives with each other, make_contiguous's result, range selection.",
+        "x11). Also: the contiguity tests of the sibling view functions agree and are the strict lower<upper (VIEWCMP1), index-kind inference (KIND1), Iter/IterMut override no provided iterator method (ITERSET1). Not decided: agreement of the two primitives with each other, make_contiguous's result, range selection.",
         note="[twin]/shape rules: a behaviour-preserving rewrite of a forwarder or of one twin would also be reported. "
         "Distinctness of mutable references: borrow checker outside unsafe + closed table of unsafe producers (C03).",
         ref="DESIGN.md §5 C07",
@@ -242,6 +245,7 @@ CLAIMS = {
         "(len, Some(len)), that next takes from right then left and next_back from left then right, that Iter::clone copies "
         "both fields in place and default iterators are two empty slices, that IntoIter is exactly pop_front/pop_back/len "
         "of its only field, and that every RangeBounds form is translated as documented by the single validation function. "
+        "No iterator type overrides a provided Iterator method (ITERSET1). "
         "Not decided: the selection arithmetic of advance_front_by/advance_back_by and element order (values).",
         note="[twin] rules. A bug present identically in both twins (or symmetric in next/next_back) is not visible to "
         "this check.",
@@ -269,9 +273,12 @@ CLAIMS = {
         "ordering = std's Iterator::partial_cmp/cmp of the two iter()s; hash = length once + one element hash per iter() "
         "item (no segment-wise slice hashing); Debug = debug_list().entries(self).finish(); the five forwarding PartialEq "
         "impls end, through any chain, in the base slice impl without recursion; the base impls test lengths first and "
-        "compare only sub-slices of the contents. Not decided: the three-way segment alignment arithmetic of buffer-vs-"
-        "buffer equality (values) — explicitly partial.",
-        note="The historically buggy alignment arithmetic (offsets x, y) is outside this family's reach.",
+        "compare only sub-slices of the contents (BASE1); in buffer == buffer every arm's compared pieces partition both "
+        "sequences — each segment whole, or as the complementary pair [..k],[k..] with the same k, in order (BASE2) — and "
+        "every split point is a difference of first-segment lengths only (BASE3). Not decided: that the split points have "
+        "the right *values* (explicitly partial).",
+        note="BASE2/BASE3 are structural necessary conditions of the segment alignment; its arithmetic itself (the "
+        "historically buggy part) is value-level.",
         ref="DESIGN.md §5 C13",
     ),
     "C14": dict(
